@@ -305,7 +305,14 @@ func ParseTemplateSource(src []byte, format ast.Format, imported, noParseShow bo
 		}
 
 		if line < tok.lin || tok.pos.End == lastIndex {
-			if p.cutSpacesToken && numTokenInLine == 1 {
+			cut, n := p.cutSpacesToken, numTokenInLine
+			if tok.typ == tokenComment && tok.pos.Line == line {
+				// The comment starts on the line being closed (it ends the
+				// file or spans lines): it is one more token of that line.
+				cut = true
+				n++
+			}
+			if cut && n == 1 {
 				cutSpaces(firstText, text)
 			}
 			line = tok.lin
